@@ -178,7 +178,7 @@ def post(check, pairs, stats):
 CFG = {
     "id": "C09",
     "level": "proof",
-    "lean_modules": ["GeomV.C09.Proofs", "GeomV.C09.ProofsProj", "GeomV.C09.ProofsDatum", "GeomV.C09.ProofsPipeline", "GeomV.C09.ProofsInit", "GeomV.C09.ProofsInit2"],
+    "lean_modules": ["GeomV.C09.Proofs", "GeomV.C09.ProofsProj", "GeomV.C09.ProofsDatum", "GeomV.C09.ProofsPipeline", "GeomV.C09.ProofsInit", "GeomV.C09.ProofsInit2", "GeomV.C09.ProofsInit3"],
     "exe": "geomv_c09",
     "go_cmd": "c09",
     "stages": ["go:gen", "go:impl", "lean:judge"],
@@ -206,6 +206,7 @@ CFG = {
         "go_init_tmerc_eq_js", "go_tmerc_fwd_eq_js'", "go_tmerc_inv_eq_js'", "go_init_utm_eq_js", "go_utm_fwd_eq_js'", "go_utm_inv_eq_js'",
         "go_merc_init_val", "js_merc_init_val", "go_init_merc_eq_js", "go_merc_fwd_eq_js'", "go_merc_inv_eq_js'",
         "krovak_init_agree", "go_init_krovak_eq_js", "go_krovak_fwd_eq_js'", "go_krovak_inv_eq_js'",
+        "aea_init_agree", "go_init_aea_eq_js", "go_aea_fwd_eq_js'", "go_aea_inv_eq_js'",
         # known finding: lcc at the pole, proved on the regenerated closure
         "lcc_pole_is_moved",
         # (B) Snyder's closed forms
